@@ -6,10 +6,11 @@ python3 ../harness/mkprops.py C02 Props/headers/h02.txt \
 python3 ../harness/mkprops.py C07 Props/headers/h07.txt \
   Proofs/MsProofs.v:sort_events_perm,sort_events_sorted,sort_events_id,to_ms_numbering,to_ms_refuses_linear,to_ms_refuses_multisource \
   Proofs/MsRates.v Proofs/SplitChain.v:ancestry_events_chain \
+  Proofs/MsGrowth.v \
   top:Proofs/SplitChain.v:chain_correct,chain_total,split_chain_moves > Props/C07.v
 python3 ../harness/mkprops.py C20 Props/headers/h20.txt \
   Proofs/CostProofs.v:search_cost_erases,search_cost_complete,search_cost_lower,ring_no_clique,ring_cost_lower,ring_cost_exponential \
   Proofs/StepsProofs.v > Props/C20.v
 python3 ../harness/mkprops.py C08 Props/headers/h08.txt \
   Proofs/MsProofs.v:build_graph_valid,from_ms_valid,build_graph_generations,en_resets_growth,en_resets_growth_unchanged_case,group_by_time_concat,group_by_time_same \
-  Proofs/FromMsRefine.v Proofs/FromMsHistory.v Proofs/MigsFromMatrices.v > Props/C08.v
+  Proofs/FromMsRefine.v Proofs/FromMsHistory.v Proofs/MigsFromMatrices.v Proofs/FromMsRates.v > Props/C08.v
